@@ -6,6 +6,7 @@ import CifModel.Lemmas.NumbShift
 import CifModel.Lemmas.NumbDigits
 import CifModel.Lemmas.NumbMisc
 import CifModel.Lemmas.NumbLink
+import CifModel.Lemmas.NumbSyntax
 /-
   Property C10 — number text and double values convert with correct rounding.
 
@@ -90,13 +91,34 @@ theorem C10_su_scaled (q : Bool) (t : Str) (neg : Bool) (digits sd : List Nat) (
 
 /-! ### acceptance -/
 
-/-- FULL statement of the syntax theorem (NOT proved in Lean; checked by the `numb` family against a Python regex of
-    the grammar on every run): acceptance is exactly the numeric syntax and the fields are the denoted ones. -/
-def C10_syntax_full : Prop :=
-  ∀ s : Str, ((parseNumb s).isSome ↔ NumberSyntax (cstr s)) ∧
-    ∀ f, parseNumb s = some f → ∀ p, NumberParts (cstr s) p →
-      f.neg = p.neg ∧ (natOfDigits f.digits = p.mantissa) ∧
-      (Parts.expValue p).natAbs < expSatLimit → f.scale = p.scale
+/-- **C10_syntax** (∀ strings): `cif_value_parse_numb` accepts exactly the texts of CIF's numeric syntax (optional sign,
+    digits with at most one decimal point and at least one digit, optional `e`/`E` exponent with digits, optional
+    parenthesised digit string), and for every reading `p` of an accepted text the stored fields are the denoted ones:
+    the sign, a digit string whose value is the mantissa `ip ++ fp`, su digits whose value is the written su, and —
+    as long as the written exponent is below the saturation bound `INT_MAX / 20` — the scale `|fp| − exponent`. -/
+theorem C10_syntax (s : Str) :
+    ((parseNumb s).isSome ↔ NumberSyntax (cstr s)) ∧
+    ∀ p, NumberParts (cstr s) p → ∃ f, parseNumb s = some f ∧ f.neg = p.neg ∧ natOfDigits f.digits = p.mantissa ∧
+      f.su.map natOfDigits = p.su.map digitsValue ∧
+      ((Parts.expValue p).natAbs < expSatLimit → f.scale = p.scale) := by
+  constructor
+  · constructor
+    · intro h
+      cases hf : parseNumb s with
+      | none => rw [hf] at h; cases h
+      | some f => exact Lemmas.NumbSyntax.parts_of_parse expSatLimit (cstr s) f hf
+    · intro ⟨p, hp⟩
+      obtain ⟨f, hf, _⟩ := Lemmas.NumbSyntax.parse_of_parts expSatLimit (cstr s) p hp
+      unfold parseNumb parseNumbZ
+      rw [hf]; rfl
+  · intro p hp
+    obtain ⟨f, hf, h1, h2, h3, h4⟩ := Lemmas.NumbSyntax.parse_of_parts expSatLimit (cstr s) p hp
+    refine ⟨f, hf, h1, h2, ?_, ?_⟩
+    · rw [h3]; exact Lemmas.NumbSyntax.su_value p.su
+    · intro hlt
+      rw [h4, Lemmas.NumbSyntax.expContrib_exact expSatLimit p hlt]
+      unfold Parts.scale
+      omega
 
 /-- **C10_rejects_unchanged**: a text that `cif_value_parse_numb` refuses leaves the value object as it was (the model
     returns `none`; the coercion keeps the character value with its quoting flag) and the getters report
